@@ -1,6 +1,10 @@
 package c13
 
 import (
+	"google.golang.org/protobuf/types/dynamicpb"
+	"google.golang.org/protobuf/reflect/protoregistry"
+	"google.golang.org/protobuf/reflect/protoreflect"
+	"google.golang.org/protobuf/reflect/protodesc"
 	"context"
 	"errors"
 	"fmt"
@@ -53,11 +57,37 @@ type callScript struct {
 	WithCause   bool // the client's context is cancelled / times out with a caller-supplied cause
 	InMD        bool // the client's context carries incoming metadata (the client is itself a handler forwarding a call)
 	ViaStream   bool // unary only: the client opens the unary method as a (non-streaming) stream, as generic proxies do
+	// Dynamic (unary, serverStream): the client's messages are dynamicpb messages built from its own resolved copy of the
+	// file descriptor, as reflection clients, gateways and generic proxies use: same full names, other descriptor values
+	Dynamic bool
 }
 
 func (s callScript) String() string {
 	return fmt.Sprintf("%s pre=%v serverMsgs=%q mid=%v code=%d msg=%q plain=%v failAfter=%d clientMsgs=%q cancelAfter=%d deadline=%v outMD=%v inMD=%v viaStream=%v withCause=%v",
-		s.Shape, s.PreOps, s.ServerMsgs, s.MidOps, s.Code, s.Msg, s.PlainErr, s.FailAfter, s.ClientMsgs, s.CancelAfter, s.Deadline, s.OutMD, s.InMD, s.ViaStream, s.WithCause)
+		s.Shape, s.PreOps, s.ServerMsgs, s.MidOps, s.Code, s.Msg, s.PlainErr, s.FailAfter, s.ClientMsgs, s.CancelAfter, s.Deadline, s.OutMD, s.InMD, s.ViaStream, s.WithCause) +
+		fmt.Sprintf(" dynamicMessages=%v", s.Dynamic)
+}
+
+// the client's own copy of the test API's file descriptor
+var dynFile = func() protoreflect.FileDescriptor {
+	fd, err := protodesc.NewFile(protodesc.ToFileDescriptorProto(testproto.File_internal_testproto_test_proto), protoregistry.GlobalFiles)
+	if err != nil {
+		panic(err)
+	}
+	return fd
+}()
+
+func dynMsg(name string) *dynamicpb.Message {
+	return dynamicpb.NewMessage(dynFile.Messages().ByName(protoreflect.Name(name)))
+}
+
+func dynSet(m *dynamicpb.Message, field string, v protoreflect.Value) *dynamicpb.Message {
+	m.Set(m.Descriptor().Fields().ByName(protoreflect.Name(field)), v)
+	return m
+}
+
+func dynGet(m *dynamicpb.Message, field string) protoreflect.Value {
+	return m.Get(m.Descriptor().Fields().ByName(protoreflect.Name(field)))
 }
 
 // ---- the one scripted server serving both transports -----------------------------------------------------------
@@ -331,12 +361,41 @@ func runClient(cc grpc.ClientConnInterface, srv *scriptedServer, sc callScript) 
 			}
 			break
 		}
+		if sc.Dynamic {
+			resp := dynMsg("UnaryResponse")
+			err = cc.Invoke(ctx, "/sc.go.test.TestApi/Unary", dynSet(dynMsg("UnaryRequest"), "msg", protoreflect.ValueOfString(sc.ClientMsgs[0])), resp, grpc.Header(&header), grpc.Trailer(&trailer))
+			if err == nil {
+				tr.Received = append(tr.Received, dynGet(resp, "msg").String())
+			}
+			break
+		}
 		var resp *testproto.UnaryResponse
 		resp, err = client.Unary(ctx, &testproto.UnaryRequest{Msg: sc.ClientMsgs[0]}, grpc.Header(&header), grpc.Trailer(&trailer))
 		if err == nil {
 			tr.Received = append(tr.Received, resp.Msg)
 		}
 	case "serverStream":
+		if sc.Dynamic {
+			var cs grpc.ClientStream
+			cs, err = cc.NewStream(ctx, &grpc.StreamDesc{ServerStreams: true}, "/sc.go.test.TestApi/ServerStream")
+			if err == nil {
+				err = cs.SendMsg(dynSet(dynMsg("ServerStreamRequest"), "num_res", protoreflect.ValueOfInt32(int32(len(sc.ServerMsgs)))))
+				if err == nil {
+					err = cs.CloseSend()
+				}
+				for err == nil {
+					if sc.CancelAfter >= 0 && len(tr.Received) == sc.CancelAfter {
+						cancel()
+					}
+					m := dynMsg("ServerStreamResponse")
+					if err = cs.RecvMsg(m); err == nil {
+						tr.Received = append(tr.Received, fmt.Sprint(dynGet(m, "counter").Int()))
+					}
+				}
+				finishStream(cs)
+			}
+			break
+		}
 		var st grpc.ServerStreamingClient[testproto.ServerStreamResponse]
 		st, err = client.ServerStream(ctx, &testproto.ServerStreamRequest{NumRes: int32(len(sc.ServerMsgs))})
 		if err == nil {
@@ -476,7 +535,9 @@ func genScript(t *rapid.T) callScript {
 		sc.ServerMsgs = []string{"resp"}
 		sc.Deadline = rapid.IntRange(0, 9).Draw(t, "deadline") == 0
 		sc.ViaStream = rapid.IntRange(0, 2).Draw(t, "viaStream") == 0
+		sc.Dynamic = !sc.ViaStream && rapid.IntRange(0, 3).Draw(t, "dynamic") == 0
 	case "serverStream":
+		sc.Dynamic = rapid.IntRange(0, 3).Draw(t, "dynamic") == 0
 		n := rapid.IntRange(0, 5).Draw(t, "nserver")
 		for i := 0; i < n; i++ {
 			sc.ServerMsgs = append(sc.ServerMsgs, fmt.Sprint(i+1))
